@@ -28,9 +28,13 @@
 //@   replace? "address, contract)" => "address, contract))"
 //@   begin proof { lemma_contract_key_insert(old(storage).view(), *address, contract.ser()); lemma_splice_same(old(storage).view(), lp(ns_wasm())); }
 //@ end
+// the body is not verified (cw-storage-plus range_raw + count): the contract is ASSUMED for a function of the store alone.
+// The signature is pinned: with another parameter list the assumed contract would speak about a different function
+// (seed C11-m16 counted per code id and still "satisfied" it) -> lost anchor, the run is undecided instead of OK.
 //@ fn src/wasm.rs :: WasmKeeper :: instance_count
 //@   ret r
 //@   drop_body
+//@   replace "fn instance_count(&self, storage: &dyn Storage) -> usize" => "fn instance_count(&self, storage: &dyn Storage) -> usize"
 //@   ensures [C11.instance_count.fn,C19] r == spec_instance_count(storage.view())
 //@ end
 
